@@ -128,7 +128,8 @@ class ParallelHoleCollimatorGeometry(Parallel3dAxisGeometry):
             The resulting geometry.
         """
         # Get transformation and translation parts from `init_matrix`
-        init_matrix = np.asarray(init_matrix, dtype=float)
+        # Copy, the parts below are views and end up in the geometry
+        init_matrix = np.array(init_matrix, dtype=float, copy=True)
         if init_matrix.shape not in ((3, 3), (3, 4)):
             raise ValueError('`matrix` must have shape (3, 3) or (3, 4), '
                              'got array with shape {}'
